@@ -11,6 +11,11 @@ def check(tier, seed):
              shards=lambda t: 4 if t == "quick" else 16,
              args=lambda t, s, sh, path: ["c06", 40 if t == "quick" else 80, s * 100 + sh, 3 if t == "quick" else 4, 6 if t == "quick" else 24, path],
              timeout=3000),
+        # assumption of the model: the game tree the search walks has only legal moves as edges (the move loops rely on
+        # the legality filter after DoMove); checked through the move-loop hook on real searches
+        dict(name="assumption_tree_moves_are_legal", kind="monitor", shards=lambda t: 4 if t == "quick" else 16,
+             args=lambda t, s, sh, path: ["c07-monitor", 60 if t == "quick" else 1500, s * 1000 + 860 + sh],
+             violation_kinds=["illegal-move-searched-in-tree"]),
     ]
     return G.generic_check(PID, "proof", tier, seed,
         rule=("obligations: C06 theorems over AlphaBeta.v (all trees within depth capacity, all windows, all orderings, all 8 switch combinations of the model); "
